@@ -39,5 +39,20 @@ def ScanSt.init : ScanSt := ⟨false, false, 0, 0⟩
 /-- `skip_container` on the text after the opening bracket -/
 def skipContainerScalar (left right : UInt8) (data : List UInt8) : Option Nat := (scan left right data ScanSt.init).1
 
+/-! ### the unchecked string skipper -/
+
+/-- walk the bytes after the opening quote: a backslash escapes the next byte, the first quote that is not
+    escaped closes the string; result: bytes consumed up to and including that quote (`none`: not closed) -/
+def strScan : List UInt8 → Bool → Option Nat
+  | [], _ => none
+  | b :: rest, esc =>
+    if !esc && b == 34 then some 1
+    else (strScan rest (b == 92 && !esc)).map (· + 1)
+
+/-- `skip_string_unchecked` on the text after the opening quote: length consumed, and "the string contains a
+    backslash" (the status that tells the caller whether the content has to be unescaped) -/
+def skipStringScalar (data : List UInt8) : Option (Nat × Bool) :=
+  (strScan data false).map fun n => (n, (data.take n).any (· == 92))
+
 end Spec
 end Sonic
